@@ -3,7 +3,9 @@
 # /tmp/wt-seed-<ID> (patch in /tmp/seed-<ID>/patch.diff, demo files below /tmp/seed-<ID>/demo/<relpath>):
 #   build, demo with the change (must fail), demo without (must pass), pinned suite with the change (must match baseline).
 # Writes /verif/seeded/<ID>/{patch.diff,demo/...,confirm.log}; prints a one-line summary.
+# Second-round seeds: SEED_ROUND=b tools/confirm_seed.sh C07 ... uses /tmp/wt-seed2-C07, /tmp/seed-C07b and /verif/seeded/C07b.
 ID=$1; RUN=$2; PKG=$3; WT=/tmp/wt-seed-$ID; S=/tmp/seed-$ID; OUT=/verif/seeded/$ID
+if [ -n "$SEED_ROUND" ]; then WT=/tmp/wt-seed2-$ID; S=/tmp/seed-$ID$SEED_ROUND; OUT=/verif/seeded/$ID$SEED_ROUND; fi
 export GOFLAGS=-mod=mod GOPROXY=off GOSUMDB=off GOTOOLCHAIN=local
 mkdir -p $OUT; cp $S/patch.diff $OUT/patch.diff; rm -rf $OUT/demo; cp -r $S/demo $OUT/demo; cp $S/notes.md $OUT/notes.md 2>/dev/null
 LOG=$OUT/confirm.log; : > $LOG
@@ -20,4 +22,4 @@ go test -vet=off -count=1 -run "$RUN" $PKG >> $LOG 2>&1; WITHOUT=$?
 git apply $OUT/patch.diff
 (cd $OUT/demo && find . -type f) | while read f; do rm -f $WT/$f; done
 echo "demo exit with change: $WITH, without: $WITHOUT" | tee -a $LOG
-if [ -z "$SKIP_SUITE" ]; then /verif/tools/run_suite.sh $WT /tmp/suite_seed_$ID.json >> $LOG 2>&1; tail -3 $LOG; fi
+if [ -z "$SKIP_SUITE" ]; then /verif/tools/run_suite.sh $WT /tmp/suite_seed_$ID$SEED_ROUND.json >> $LOG 2>&1; tail -3 $LOG; fi
